@@ -520,7 +520,7 @@ func engineDecode(cfg config, o *out) {
 			c := &decCtx{codecCtx: cc, modelOK: !reachesNonPulsar(si, mi, map[*msgInfo]bool{})}
 			n := 25
 			if cfg.thorough() {
-				n = 500
+				n = 120
 			}
 			if len(mi.fields) == 0 {
 				n = 3
@@ -556,6 +556,8 @@ func engineDecode(cfg config, o *out) {
 				step := 1
 				if !cfg.thorough() && len(enc) > 24 {
 					step = len(enc) / 24
+				} else if len(enc) > 160 {
+					step = len(enc) / 160
 				}
 				for cut := 0; cut < len(enc); cut += step {
 					c.malformed(mi, enc[:cut], "trunc")
@@ -620,7 +622,7 @@ func engineDecode(cfg config, o *out) {
 			// random bytes
 			nr := 40
 			if cfg.thorough() {
-				nr = 2000
+				nr = 1000
 			}
 			for k := 0; k < nr; k++ {
 				b := make([]byte, cc.r.intn(1+cc.r.intn(40)))
